@@ -139,11 +139,11 @@ package pokerface
 //@   ensures len(res) == len(g.gs.Players)
 //@   ensures forall j :: 0 <= j && j < len(g.gs.Players) ==> res[DIST(g.dealer.idx, j, len(g.gs.Players))] == g.players[j]
 //@   ensures forall k :: 0 <= k && k < len(g.gs.Players) ==> res[k] == g.players[ROT(g.dealer.idx, k, len(g.gs.Players))]
-//@   loop 1 invariant 0 <= i && i <= len(g.gs.Players) && len(players) == i && 0 <= cur && cur < len(g.gs.Players)
-//@   loop 1 invariant (i < len(g.gs.Players) ==> DIST(g.dealer.idx, cur, len(g.gs.Players)) == i) && (i == len(g.gs.Players) ==> cur == g.dealer.idx)
-//@   loop 1 invariant forall j :: 0 <= j && j < len(g.gs.Players) && DIST(g.dealer.idx, j, len(g.gs.Players)) < i
+//@   loop 1 invariant 0 <= loopvar && loopvar <= len(g.gs.Players) && len(players) == loopvar && 0 <= cur && cur < len(g.gs.Players)
+//@   loop 1 invariant (loopvar < len(g.gs.Players) ==> DIST(g.dealer.idx, cur, len(g.gs.Players)) == loopvar) && (loopvar == len(g.gs.Players) ==> cur == g.dealer.idx)
+//@   loop 1 invariant forall j :: 0 <= j && j < len(g.gs.Players) && DIST(g.dealer.idx, j, len(g.gs.Players)) < loopvar
 //@                      ==> players[DIST(g.dealer.idx, j, len(g.gs.Players))] == g.players[j]
-//@   loop 1 invariant forall k :: 0 <= k && k < i ==> players[k] == g.players[ROT(g.dealer.idx, k, len(g.gs.Players))]
+//@   loop 1 invariant forall k :: 0 <= k && k < loopvar ==> players[k] == g.players[ROT(g.dealer.idx, k, len(g.gs.Players))]
 
 //@ func (*game).ResetAllPlayerAllowedActions(g) (err)
 //@   props C04 C05
@@ -616,8 +616,8 @@ package pokerface
 //@   allocs elems(string)
 //@   ensures [C14] len(cards) == count && g.gs.Status.CurrentDeckPosition == old(g.gs.Status.CurrentDeckPosition) + count
 //@   ensures [C14] forall k :: 0 <= k && k < count ==> cards[k] == g.gs.Meta.Deck[old(g.gs.Status.CurrentDeckPosition) + k]
-//@   loop 1 invariant old(g.gs.Status.CurrentDeckPosition) <= i && i <= old(g.gs.Status.CurrentDeckPosition) + count
-//@   loop 1 invariant g.gs.Status.CurrentDeckPosition == i && len(cards) == i - old(g.gs.Status.CurrentDeckPosition)
+//@   loop 1 invariant old(g.gs.Status.CurrentDeckPosition) <= loopvar && loopvar <= old(g.gs.Status.CurrentDeckPosition) + count
+//@   loop 1 invariant g.gs.Status.CurrentDeckPosition == loopvar && len(cards) == loopvar - old(g.gs.Status.CurrentDeckPosition)
 //@   loop 1 invariant forall k :: 0 <= k && k < len(cards) ==> cards[k] == g.gs.Meta.Deck[old(g.gs.Status.CurrentDeckPosition) + k]
 
 //@ func (*game).Burn(g, count) (err)
